@@ -16,21 +16,30 @@ PROP = dict(
           "interposition at the k-th waitpid/poll/read/write (sleep 0.2..20 ms, wait-until-the-child-is-a-zombie, "
           "wait-until-the-child-closed-stdin). A deterministic grid {0,1,4095,4096,65535,65536,65537,1 MiB} x 4 behaviours x 4 API "
           "variants is enumerated (plus fixed shapes, among them a never-exiting child under 30 / 100 ms signals and a child that leaves a "
-          "descendant holding the output pipes, for every API variant), rapidcheck draws the rest (13 behaviour families, payloads and "
-          "outputs up to 4 MiB). With a descendant holding the pipes the call still owes the child's own bytes and wait status, and it "
+          "descendant holding the output pipes, for every API variant), rapidcheck draws the rest (14 behaviour families, payloads and "
+          "outputs up to 4 MiB). Closed stream + timeout (family 13): the child closes stdin (with more than a pipe's worth of payload unread), stdout and/or stderr "
+          "and then never exits, under a 100..160 ms timeout - the parent's end of the closed pipe stays ready for ever (POLLHUP without POLLIN / POLLERR without "
+          "POLLOUT), and the timeout still has to end the child; every non-empty subset of the three streams is in the grid for run_process, the subsets without stdout for "
+          "communicate. A caller that spins instead of sleeping is judged by CPU time: the CPU time the single-threaded calling process has consumed is a lower bound of the "
+          "time that has passed, so when it exceeds timeout + 1.5 s (+ 6.5 s when the child ignores SIGTERM) + 10 s and the call has not returned, the case fails "
+          "(<api>-timeout-overrun-busy) - independent of machine load. Ambient descriptors of the caller: in a fifth of the random cases (and in grid shapes for every API "
+          "variant) one of the calling process's own descriptors 0 / 1 / 2 is closed while it makes the call(s) (parked on a high close-on-exec number and restored "
+          "afterwards; sanitizer reports follow the parked stderr), so the pipes of the call land on the numbers 0..2; the oracle is unchanged. With a descendant holding the pipes the call still owes the child's own bytes and wait status, and it "
           "must come back without waiting for the descendant (which lives 120 s: waiting for it is a no-progress deadlock for the "
           "watchdog). Under signals with a timeout T: the number of the caller's poll() calls that failed with EINTR before it first "
           "signals the child, times the signal period, is a lower bound of the time since the child started; it must not exceed "
           "T + 2 s (when it does, the signals stop so that the call can return, and the case fails) - no wall-clock reading, a starved "
           "caller handles fewer signals, not more. Non-trivial: "
           "payload > 64 KiB, or child output > 64 KiB on a stream, or a non-empty delay plan with a child that exits right after its "
-          "last write, or a descendant that holds stdout/stderr, or a never-exiting child under periodic signals. Distinct = distinct case "
+          "last write, or a descendant that holds stdout/stderr, or a never-exiting child under periodic signals, or a never-exiting child that closed one of its streams, or a caller with a closed standard descriptor. Distinct = distinct case "
           "encodings (script, payload, plan)."),
     assumptions=["SIGPIPE is ignored in the calling process (the worker sets SIG_IGN)",
                  "communicate does not read stderr: with an unread stderr pipe the child writes at most 16 KiB to it, otherwise stderr goes to a file",
                  "always the std::string overload of communicate (a string literal binds to the (const void*, size_t, uint64_t) overload)",
                  "communicate timeouts are exercised only with a child that keeps stdout open",
                  "deadlines that must not expire are 60 s; expiring ones 100..300 ms",
+                 "callers with TWO OR MORE of their descriptors 0/1/2 closed are excluded by construction and counted (reported defect of the unmodified library: the child branch of Subprocess closes the parent's pipe ends after the dup2s, and with two standard descriptors closed those ends carry the numbers 1 / 2, so the child starts without stdout and/or stderr; repro: corpus/c15/pending_defect_caller_two_std_fds_closed.case.txt)",
+                 "after the first deadlock or runaway verdict a shard skips its remaining cases (each further one would cost 10 s of silence or tens of seconds of CPU)",
                  "under communicate a background descendant of the child holds only stderr (communicate reads stdout to end-of-file and writes stdin until it is closed; what it owes while another process keeps one of those open is not stated)",
                  "a timeout that has to fire under periodic signals may be noticed up to 2 s late (run_process polls with a 1 s period); the signals reach only the calling process, never the child",
                  "deadlock verdict: worker and child all blocked (no process runnable) with no change of rchar+wchar in /proc/<pid>/io and no CPU time consumed for 10 s plus the sleeps the case asks for; runaway verdict: more than 6x the case's I/O volume + 64 MiB moved, or more than 90 s of CPU consumed"],
